@@ -194,3 +194,44 @@ Definition r17_cmp (m1 n1 m2 n2 : Z) : list Z :=
 (* From<Option<i64>> for Time / TimeDelta, Time::is_nat *)
 Definition r17_from_opt (o : option Z) : list Z :=
   c_int (time_from_opt_i64 o) ++ c_bool (time_is_nat (time_from_opt_i64 o)) ++ c_td (td_from_opt_i64 o).
+
+(* ---- audit (notes/C17.md "Audit matrix"): interpreters for the cases of harness section 9 --------------------- *)
+Definition bind_z17 (r : res Z) (f : Z -> res Z) : res Z := match r with Ok v => f v | Panic k => Panic k end.
+(* a - b, then a - (a - b); spec cell b where C17_diff_sub_inverse applies *)
+Definition r17_ab2 (u : tunit) (a b : Z) : list Z :=
+  match dt_diff u a b with
+  | Ok d => c_td d ++
+            (if td_is_nat d then c_int NaT
+             else match dt_sub u a d with Ok _ => c_int b | Panic k => c_panic k end)
+  | Panic k => c_panic k
+  end.
+(* duration_trunc twice: the second application must return the first result (spec cell) for a whole number of units *)
+Definition r17_trunc2 (u : tunit) (x m ns : Z) : list Z :=
+  let d := mktd m ns in
+  match dt_trunc u x d with
+  | Panic k => c_panic k
+  | Ok y =>
+    c_int y ++
+    match dt_trunc u y d with
+    | Panic k => c_panic k
+    | Ok y' => if (m =? 0) && (0 <? ns) && (ns mod unit_ns u =? 0) && negb (is_nat y) && negb (is_nat y') && negb (is_nat x)
+               then c_int y else c_int y'
+    end
+  end.
+(* TimeDelta + - * with arbitrary (also NaT) operands, and negation *)
+Definition r17_tdops (m1 n1 m2 n2 k : Z) : list Z :=
+  let a := mktd m1 n1 in let b := mktd m2 n2 in
+  c_rtd (td_add a b) ++ c_rtd (td_sub a b) ++ c_rtd (td_mul a k) ++ c_td (td_neg a).
+(* x + (k months, n ns) in one operator and as two operators in sequence (C17_dt_add_mixed_sequential) *)
+Definition r17_mixed (u : tunit) (x k n : Z) : list Z :=
+  c_res (dt_add u x (mktd k n)) ++ c_res (bind_z17 (dt_add u x (mktd k 0)) (fun y1 => dt_add u y1 (mktd 0 n))).
+(* x + k months - k months: both results (the round trip is the identity iff the day was not clamped) *)
+Definition r17_month_rt (u : tunit) (x k : Z) : list Z :=
+  let d := mktd k 0 in
+  c_res (dt_add u x d) ++ c_res (bind_z17 (dt_add u x d) (fun y => dt_sub u y d)).
+(* Time - d then + d (mirror inverse law), and x - d against x + (-d) *)
+Definition r17_time_rt (t ns : Z) : list Z :=
+  let d := mktd 0 ns in
+  c_res (time_sub t d) ++ c_res (bind_z17 (time_sub t d) (fun y => time_add y d)).
+Definition r17_subneg (u : tunit) (x m ns : Z) : list Z :=
+  c_res (dt_sub u x (mktd m ns)) ++ c_res (dt_add u x (td_neg (mktd m ns))).
